@@ -95,6 +95,22 @@ Print Assumptions C16_sample2D_inside_unaffected.
 
 (** ** Inverse interpolation *)
 
+(** every array read of the iteration is in bounds, for ANY iterate (x, y) — the cell index is clipped
+    to [0, n-2] — so the conversion cannot fail with an IndexError nor read a wrapped-around node *)
+Theorem C16_bilin_inv_reads_in_bounds : forall F G x y,
+  wf_arr F = true -> wf_arr G = true -> same_shape G F = true -> (2 <= nrow F)%Z -> (2 <= ncol F)%Z ->
+  let i := cell_index (nrow F) x in let j := cell_index (ncol F) y in
+  in_range F i j = true /\ in_range F (i + 1) j = true /\ in_range F i (j + 1) = true /\
+  in_range F (i + 1) (j + 1) = true /\
+  (exists kf, corners F i j = Some kf) /\ (exists kg, corners G i j = Some kg).
+Proof. exact bilin_step_reads_in_bounds. Qed.
+Print Assumptions C16_bilin_inv_reads_in_bounds.
+Theorem C16_bilin_inv_never_leaves : forall f g F G maxiter tol bx b_y,
+  wf_arr F = true -> wf_arr G = true -> (2 <= nrow F)%Z -> (2 <= ncol F)%Z ->
+  bilin_inv f g F G maxiter tol <> BLeft bx b_y.
+Proof. exact bilin_inv_never_left. Qed.
+Print Assumptions C16_bilin_inv_never_leaves.
+
 (** T5 post-condition: if the iteration stops by its convergence test, the returned point satisfies
     (F(x,y)-f)^2 + (G(x,y)-g)^2 < tol, F(x,y), G(x,y) being the bilinear estimates at that point. *)
 Theorem C16_bilin_inv_post : forall f g F G maxiter tol x y,
@@ -102,50 +118,60 @@ Theorem C16_bilin_inv_post : forall f g F G maxiter tol x y,
   exists Fs Gs, bil_at F x y = Some Fs /\ bil_at G x y = Some Gs /\ resid2 Fs f Gs g < tol.
 Proof. exact bilin_inv_post. Qed.
 Print Assumptions C16_bilin_inv_post.
-(** ... and that estimate is what sample2D (hence xy2ll) returns there, axes exchanged *)
+(** ... and inside the array that estimate is what sample2D (hence xy2ll) returns there, axes exchanged *)
 Theorem C16_bil_at_is_sample2D : forall A undef outv x y v,
-  bil_at A x y = Some v -> 0 <= x -> 0 <= y ->
+  bil_at A x y = Some v -> outside A y x = false ->
   exists v', sample2D A None undef outv y x = SVal v' /\ v' == v.
 Proof. exact bil_at_sample2D. Qed.
 Print Assumptions C16_bil_at_is_sample2D.
 
 (** "a release given by longitude/latitude starts at the grid position whose interpolated
     longitude/latitude are the given ones" — FULL clause: for every conformal grid of realistic resolution
-    and every lon/lat inside it, [release_position g lon lat = BDone X Y true].
-    PROVED (partial): whenever the conversion returns through its convergence test, the position it
-    returns has xy2ll within the solver tolerance (squared residual < 1e-7 deg^2) of the requested lon/lat.
+    and every lon/lat inside it, [release_position g lon lat = BDone X Y true] with (X, Y) inside.
+    PROVED (partial): whenever the conversion returns through its convergence test a position inside the
+    loaded grid, xy2ll of that position is within the solver tolerance (squared residual < 1e-7 deg^2) of
+    the requested lon/lat.
     MISSING: that the 7-pass Newton iteration from the array centre always reaches the test on such grids
     (needs a quantitative bound on the bilinear cross-term of polar-stereographic / rotated cells); covered
     by the correspondence on generated grids instead. *)
 Theorem C16_release_position_partial : forall g lon lat X Y,
-  release_position g lon lat = BDone X Y true -> inject_Z (gi0 g) <= X -> inject_Z (gj0 g) <= Y ->
-  exists lo la, sres_eq (fst (xy2ll g X Y)) (SVal lo) /\ sres_eq (snd (xy2ll g X Y)) (SVal la) /\
-                resid2 lo lon la lat < default_tol.
+  release_position g lon lat = BDone X Y true -> same_shape (glat g) (glon g) = true ->
+  outside (glon g) (X - inject_Z (gi0 g)) (Y - inject_Z (gj0 g)) = false ->
+  exists lo la, xy2ll g X Y = (SVal lo, SVal la) /\ resid2 lo lon la lat < default_tol.
 Proof. exact ll2xy_post. Qed.
 Print Assumptions C16_release_position_partial.
 
-(** T6: on an affine non-degenerate coordinate pair one Newton pass from ANY cell of the array either
-    stops (test already met) or lands exactly on the pre-image (xs, ys). *)
+(** T6: on an affine non-degenerate coordinate pair one Newton pass from ANY iterate (inside the array
+    or beyond its edges) either stops (test already met) or lands exactly on the pre-image (xs, ys) *)
 Theorem C16_newton_affine_exact : forall F G a0 a1 a2 b0 b1 b2 f g tol x y xs ys,
   affine_arr F a0 a1 a2 -> affine_arr G b0 b1 b2 -> same_shape G F = true ->
-  ~ a1 * b2 - a2 * b1 == 0 ->
-  (0 <= qtrunc x)%Z -> (qtrunc x + 1 < nrow F)%Z -> (0 <= qtrunc y)%Z -> (qtrunc y + 1 < ncol F)%Z ->
+  ~ a1 * b2 - a2 * b1 == 0 -> (2 <= nrow F)%Z -> (2 <= ncol F)%Z ->
   f == a0 + a1 * xs + a2 * ys -> g == b0 + b1 * xs + b2 * ys ->
   bilin_step f g F G tol x y = StStop \/
   exists x' y', bilin_step f g F G tol x y = StNext x' y' /\ x' == xs /\ y' == ys.
 Proof. exact newton_affine_step. Qed.
 Print Assumptions C16_newton_affine_exact.
+(** hence the whole function returns the exact pre-image of any (f, g), or the centre when the test is
+    already met there *)
+Theorem C16_bilin_inv_affine_exact : forall F G a0 a1 a2 b0 b1 b2 f g tol maxiter xs ys,
+  affine_arr F a0 a1 a2 -> affine_arr G b0 b1 b2 -> same_shape G F = true ->
+  ~ a1 * b2 - a2 * b1 == 0 -> 0 < tol -> (2 <= nrow F)%Z -> (2 <= ncol F)%Z -> (2 <= maxiter)%Z ->
+  f == a0 + a1 * xs + a2 * ys -> g == b0 + b1 * xs + b2 * ys ->
+  exists x' y', bilin_inv f g F G maxiter tol = BDone x' y' true /\
+                ((x' == xs /\ y' == ys) \/ (x' = fst (bilin_start F) /\ y' = snd (bilin_start F))).
+Proof. exact bilin_inv_affine. Qed.
+Print Assumptions C16_bilin_inv_affine_exact.
 
 (** "converting a position inside the grid to longitude/latitude and back reproduces it to the solver
     tolerance" — FULL clause: for all conformal grids, all subgrids, all positions in the valid region.
-    PROVED (partial): on grids whose lon/lat are affine in the grid indices (non-degenerate, at least 3x3
+    PROVED (partial): on grids whose lon/lat are affine in the grid indices (non-degenerate, at least 2x2
     nodes) the round trip ll2xy (xy2ll p) returns p EXACTLY, for every p inside and every offset i0, j0;
     the only exception is when p's lon/lat already meet the test at the initial guess, then the array
     centre is returned (within the solver tolerance by the previous theorem).
     MISSING: convergence on curved (non-affine) conformal grids, see above. *)
 Theorem C16_roundtrip_affine_partial : forall g a0 a1 a2 b0 b1 b2 X Y,
   affine_arr (glon g) a0 a1 a2 -> affine_arr (glat g) b0 b1 b2 -> same_shape (glat g) (glon g) = true ->
-  ~ a1 * b2 - a2 * b1 == 0 -> (3 <= nrow (glon g))%Z -> (3 <= ncol (glon g))%Z ->
+  ~ a1 * b2 - a2 * b1 == 0 -> (2 <= nrow (glon g))%Z -> (2 <= ncol (glon g))%Z ->
   outside (glon g) (X - inject_Z (gi0 g)) (Y - inject_Z (gj0 g)) = false ->
   exists lo la X' Y',
     xy2ll g X Y = (SVal lo, SVal la) /\ ll2xy g lo la = BDone X' Y' true /\
@@ -222,8 +248,14 @@ Definition exC : grid :=
   mkGrid 1 1 (atab 6 7 (fun r c => 5 + (1 # 100) * inject_Z r + (3 # 100) * inject_Z c + (1 # 2000) * inject_Z r * inject_Z c))
              (atab 6 7 (fun r c => 60 + (1 # 50) * inject_Z r + - (1 # 200) * inject_Z c + (1 # 4000) * inject_Z r * inject_Z c)).
 Example C16_ex_T5 :
-  match ll2xy exC (5117 # 1000) (60041 # 1000) with BDone X Y t => t && Qle_bool 1 X && Qle_bool 1 Y | _ => false end = true.
-Proof. vm_compute. reflexivity. Qed.
+  same_shape (glat exC) (glon exC) = true /\
+  match ll2xy exC (5117 # 1000) (60041 # 1000) with
+  | BDone X Y t => t && negb (outside (glon exC) (X - inject_Z (gi0 exC)) (Y - inject_Z (gj0 exC)))
+  | _ => false end = true.
+Proof. vm_compute. split; reflexivity. Qed.
+(** an iterate far outside the array still reads the edge cell *)
+Example C16_ex_clip : cell_index 6 (- (7 # 2)) = 0%Z /\ cell_index 6 (123 # 10) = 4%Z /\ cell_index 6 (5 # 2) = 2%Z.
+Proof. vm_compute. repeat split. Qed.
 (** a legal subgrid of a full 8 x 9 array: positions with i0 <= X < i1 - 1, j0 <= Y < j1 - 1 *)
 Definition exLON : arr2 := atab 8 9 (fun r c => 5 + (3 # 100) * inject_Z c + (1 # 3000) * inject_Z r * inject_Z r).
 Definition exLAT : arr2 := atab 8 9 (fun r c => 60 + (1 # 50) * inject_Z r + (1 # 7000) * inject_Z c * inject_Z c).
